@@ -1,0 +1,103 @@
+//go:build verif
+
+// Contracts for gossip_tracer.go (property C17: IWANT promises). Comment-only.
+
+package pubsub
+
+// Promise table: promises[mid][p] = time by which p must have delivered message mid.
+// Distinct message IDs own distinct, non-nil maps.
+//@ spec fn gtRep(gt *gossipTracer) bool = gt.promises != nil && gt.peerPromises != nil &&
+//@      (forall m string :: m in gt.promises ==> gt.promises[m] != nil && allocated(gt.promises[m])) &&
+//@      (forall m1 string, m2 string :: m1 in gt.promises && m2 in gt.promises && m1 != m2 ==> gt.promises[m1] != gt.promises[m2]) &&
+//@      (forall q string :: q in gt.peerPromises ==> gt.peerPromises[q] != nil && allocated(gt.peerPromises[q])) &&
+//@      (forall q1 string, q2 string :: q1 in gt.peerPromises && q2 in gt.peerPromises && q1 != q2 ==> gt.peerPromises[q1] != gt.peerPromises[q2])
+
+//@ monitor gossipTracer.Mutex
+//@   protects map(promises), map(peerPromises), allmaps(map[peer.ID]time.Time), allmaps(map[string]struct{})
+//@   invariant rep: gtRep(self)
+
+// GetBrokenPromises: a peer is reported (and later penalised) only for a promise whose deadline
+// has passed (expire < now) - i.e. the promised message arrived from nobody in time, since every
+// delivery or rejection of the message removes the promise (fulfillPromise); promises that are
+// not yet due are kept with their deadline; every due promise is removed; nothing is added.
+//@ func (*gossipTracer).GetBrokenPromises
+//@   property C17
+//@   modifies monitor(gossipTracer.Mutex), clock
+//@   loop 1 invariant held: held(gt.Mutex) && gtRep(gt) && now == lastret(time.Now) && (res == nil || fresh(res))
+//@   loop 1 invariant no-new: forall m string, q string :: has(gt.promises, m, q) ==> lin(has(gt.promises, m, q)) && gt.promises[m][q] == lin(gt.promises[m][q])
+//@   loop 1 invariant kept: forall m string, q string :: lin(has(gt.promises, m, q)) && !(lin(gt.promises[m][q]) < now) ==> has(gt.promises, m, q)
+//@   loop 1 invariant swept: forall m string, q string :: $visited[m] && lin(has(gt.promises, m, q)) && lin(gt.promises[m][q]) < now ==> !has(gt.promises, m, q)
+//@   loop 1 invariant reported-only-due: forall q string :: res != nil && q in res ==> res[q] > 0 && (exists m string :: lin(has(gt.promises, m, q)) && lin(gt.promises[m][q]) < now)
+//@   loop 1 invariant tables: forall m string :: m in gt.promises ==> lin(m in gt.promises) && gt.promises[m] == lin(gt.promises[m])
+//@   loop 2 invariant held: held(gt.Mutex) && gtRep(gt) && now == lastret(time.Now) && (res == nil || fresh(res)) && mid in gt.promises && promises == gt.promises[mid] && $visited#1[mid]
+//@   loop 2 invariant no-new: forall m string, q string :: has(gt.promises, m, q) ==> lin(has(gt.promises, m, q)) && gt.promises[m][q] == lin(gt.promises[m][q])
+//@   loop 2 invariant kept: forall m string, q string :: lin(has(gt.promises, m, q)) && !(lin(gt.promises[m][q]) < now) ==> has(gt.promises, m, q)
+//@   loop 2 invariant swept-outer: forall m string, q string :: $visited#1[m] && m != mid && lin(has(gt.promises, m, q)) && lin(gt.promises[m][q]) < now ==> !has(gt.promises, m, q)
+//@   loop 2 invariant swept-inner: forall q string :: $visited[q] && lin(has(gt.promises, mid, q)) && lin(gt.promises[mid][q]) < now ==> !has(gt.promises, mid, q)
+//@   loop 2 invariant reported-only-due: forall q string :: res != nil && q in res ==> res[q] > 0 && (exists m string :: lin(has(gt.promises, m, q)) && lin(gt.promises[m][q]) < now)
+//@   loop 2 invariant tables: forall m string :: m in gt.promises ==> lin(m in gt.promises) && gt.promises[m] == lin(gt.promises[m])
+//@   loop 2 invariant range: forall q string :: has(gt.promises, mid, q) ==> $start[q]
+//@   ensures reported-only-due: gt != nil ==> (forall q string :: result != nil && q in result ==> result[q] > 0 && (exists m string :: lin(has(gt.promises, m, q)) && lin(gt.promises[m][q]) < now))
+//@   ensures due-removed: gt != nil ==> (forall m string, q string :: lin(has(gt.promises, m, q)) && lin(gt.promises[m][q]) < now ==> !has(gt.promises, m, q))
+//@   ensures pending-kept: gt != nil ==> (forall m string, q string :: lin(has(gt.promises, m, q)) && !(lin(gt.promises[m][q]) < now) ==> has(gt.promises, m, q) && gt.promises[m][q] == lin(gt.promises[m][q]))
+//@   ensures nothing-added: gt != nil ==> (forall m string, q string :: has(gt.promises, m, q) ==> lin(has(gt.promises, m, q)))
+//@   ensures released: gt != nil ==> !held(gt.Mutex)
+
+// fulfillPromise: the message arrived (or was rejected for a reason other than a bad signature):
+// nobody can be blamed for it any more.
+//@ func (*gossipTracer).fulfillPromise
+//@   property C17
+//@   dynpure ID
+//@   requires msg: msg != nil && gt.idGen != nil
+//@   noframe
+//@   loop 1 invariant held: held(gt.Mutex) && gtRep(gt) && !(mid in gt.promises) &&
+//@        (forall m string, q string :: m != mid ==> has(gt.promises, m, q) == lin(has(gt.promises, m, q)) && gt.promises[m][q] == lin(gt.promises[m][q]))
+//@   ensures cleared: !(lastret((*msgIDGenerator).ID) in gt.promises)
+//@   ensures others-kept: forall m string, q string :: m != lastret((*msgIDGenerator).ID) ==> has(gt.promises, m, q) == lin(has(gt.promises, m, q)) && gt.promises[m][q] == lin(gt.promises[m][q])
+//@   ensures released: !held(gt.Mutex)
+
+// RejectMessage: a message rejected for a missing or invalid signature does NOT fulfil promises
+// (anyone could have forged it); every other rejection does.
+//@ func (*gossipTracer).RejectMessage
+//@   property C17
+//@   noframe
+//@   ensures signature-rejections-keep-promises: reason == RejectMissingSignature || reason == RejectInvalidSignature ==>
+//@        calls((*gossipTracer).fulfillPromise) == old(calls((*gossipTracer).fulfillPromise))
+//@   ensures other-rejections-fulfil: reason != RejectMissingSignature && reason != RejectInvalidSignature ==>
+//@        calls((*gossipTracer).fulfillPromise) == old(calls((*gossipTracer).fulfillPromise)) + 1 && lastarg((*gossipTracer).fulfillPromise, 1) == msg
+
+// ThrottlePeer: a peer we refuse payload from cannot keep its promises: they are all voided.
+//@ func (*gossipTracer).ThrottlePeer
+//@   property C17
+//@   modifies monitor(gossipTracer.Mutex)
+//@   loop 1 invariant held: held(gt.Mutex) && gtRep(gt) && (forall m string :: $visited[m] ==> !has(gt.promises, m, p)) &&
+//@        (forall m string, q string :: q != p ==> has(gt.promises, m, q) == lin(has(gt.promises, m, q)) && gt.promises[m][q] == lin(gt.promises[m][q])) &&
+//@        (forall m string :: has(gt.promises, m, p) ==> lin(has(gt.promises, m, p))) && p in gt.peerPromises && gt.peerPromises[p] == peerPromises
+//@   ensures others-kept: forall m string, q string :: q != p ==> has(gt.promises, m, q) == lin(has(gt.promises, m, q)) && gt.promises[m][q] == lin(gt.promises[m][q])
+//@   ensures index-voided: !(p in gt.peerPromises)
+//@   ensures released: !held(gt.Mutex)
+
+// AddPromise: one of the requested IDs (chosen at random) is tracked for the peer; a promise that
+// already exists keeps its deadline (a peer cannot extend it by advertising again); the new
+// deadline is now + followUpTime; no other promise changes. The request list must be non-empty
+// (rand.Intn panics on 0): handleIHave's contract guarantees it.
+//@ func (*gossipTracer).AddPromise
+//@   property C17 C12
+//@   safe
+//@   requires nonempty: gt == nil || len(msgIDs) > 0
+//@   modifies monitor(gossipTracer.Mutex), clock
+//@   ensures tracked: gt != nil ==> (exists i int :: 0 <= i && i < len(msgIDs) && has(gt.promises, msgIDs[i], p) &&
+//@        gt.promises[msgIDs[i]][p] == ite(lin(has(gt.promises, msgIDs[i], p)), lin(gt.promises[msgIDs[i]][p]), now + gt.followUpTime) &&
+//@        (forall m string, q string :: m != msgIDs[i] || q != p ==> has(gt.promises, m, q) == lin(has(gt.promises, m, q)) && gt.promises[m][q] == lin(gt.promises[m][q])))
+//@   ensures released: gt != nil ==> !held(gt.Mutex)
+
+// applyIwantPenalties: a behaviour penalty is given only to peers reported by GetBrokenPromises,
+// one AddPenalty call per reported peer with the reported count.
+//@ func (*GossipSubRouter).applyIwantPenalties
+//@   property C17
+//@   noframe
+//@   loop 1 invariant penalising: calls((*peerScore).AddPenalty) - old(calls((*peerScore).AddPenalty)) == $count &&
+//@        calls((*gossipTracer).GetBrokenPromises) == old(calls((*gossipTracer).GetBrokenPromises)) + 1
+//@   at call AddPenalty assert reported: $arg1 in lastret((*gossipTracer).GetBrokenPromises) && $arg2 == lastret((*gossipTracer).GetBrokenPromises)[$arg1]
+//@   ensures asked-once: calls((*gossipTracer).GetBrokenPromises) == old(calls((*gossipTracer).GetBrokenPromises)) + 1
+//@   ensures one-penalty-per-reported-peer: calls((*peerScore).AddPenalty) - old(calls((*peerScore).AddPenalty)) == len(lastret((*gossipTracer).GetBrokenPromises))
